@@ -114,6 +114,69 @@ theorem evalDelete_loud (fuel : Nat) (node : Node) (st : St) (r : Obj)
     split <;> tr
   · tr
 
+/-! ### overwriting or deleting a function-valued binding is never quiet -/
+
+theorem missOf_congr {s s' : St} (h : s'.frames = s.frames) (e : Nat) : missOf s' e = missOf s e := by
+  unfold missOf; rw [h]
+
+/-- `functionChanged` on a binding that held a function raises the WRITER's counter -/
+theorem functionChanged_loud (w : Nat) (o : Obj) (st : St) (ho : isFuncObj o = true)
+    (hok : outcome (functionChanged w (some o)) st = .ok ()) :
+    missOf (stateAfter (functionChanged w (some o)) st) w = missOf st w + 1 := by
+  have hO : ∀ {α} (x : M α) (s : St), outcome x s = (run x s).1 := fun _ _ => rfl
+  have hS : ∀ {α} (x : M α) (s : St), stateAfter x s = (run x s).2 := fun _ _ => rfl
+  rw [hO] at hok
+  rw [hS]
+  unfold functionChanged at hok ⊢
+  simp only [ho, if_true] at hok ⊢
+  rw [run_bind, run_modifyFrame] at hok ⊢
+  cases h : st.frames[w]? with
+  | none => rw [h] at hok; cases hok
+  | some f =>
+    dsimp only
+    have hm : run (modify fun st => { st with cache := [] } : M PUnit)
+        { st with frames := st.frames.setIfInBounds w { f with getMiss := f.getMiss + 1 } } =
+        (.ok ⟨⟩, { st with frames := st.frames.setIfInBounds w { f with getMiss := f.getMiss + 1 }, cache := [] }) := rfl
+    rw [hm]
+    dsimp only
+    have := missOf_setIfInBounds st w f { f with getMiss := f.getMiss + 1 } h w
+    simp only [if_true] at this
+    refine Eq.trans (missOf_congr (s := { st with frames := st.frames.setIfInBounds w { f with getMiss := f.getMiss + 1 } }) rfl w) ?_
+    rw [this]
+    unfold missOf
+    rw [h]
+
+/-- the store step of an assignment (`update`): overwriting a binding that holds a function strictly
+raises the counter of the environment doing the assignment -/
+theorem envStoreAt_loud (w e : Nat) (name : String) (val : Obj) (st : St) (fr : Frame) (o r : Obj)
+    (hfr : st.frames[e]? = some fr) (hl : lookupStore fr.store name = some o) (ho : isFuncObj o = true)
+    (hok : outcome (envStoreAt w e name val) st = .ok r) :
+    missOf st w < missOf (stateAfter (envStoreAt w e name val) st) w := by
+  have hO : ∀ {α} (x : M α) (s : St), outcome x s = (run x s).1 := fun _ _ => rfl
+  have hS : ∀ {α} (x : M α) (s : St), stateAfter x s = (run x s).2 := fun _ _ => rfl
+  have e1 : outcome (envStoreAt w e name val) st = outcome (functionChanged w (some o) >>= fun _ =>
+      (modifyFrame e fun f =>
+        { f with store := setStore f.store name val, numSet := if f.depth == 0 then f.numSet + 1 else f.numSet }) >>= fun _ =>
+      (pure val : M Obj)) st := by
+    rw [hO, hO]; unfold envStoreAt; rw [run_bind, run_getFrame, hfr]; dsimp only; rw [hl]
+  have e2 : stateAfter (envStoreAt w e name val) st = stateAfter (functionChanged w (some o) >>= fun _ =>
+      (modifyFrame e fun f =>
+        { f with store := setStore f.store name val, numSet := if f.depth == 0 then f.numSet + 1 else f.numSet }) >>= fun _ =>
+      (pure val : M Obj)) st := by
+    rw [hS, hS]; unfold envStoreAt; rw [run_bind, run_getFrame, hfr]; dsimp only; rw [hl]
+  rw [e1, outcome_bind] at hok
+  rw [e2, stateAfter_bind]
+  cases hf : outcome (functionChanged w (some o)) st with
+  | error err => rw [hf] at hok; cases hok
+  | ok u =>
+    dsimp only
+    have h1 := functionChanged_loud w o st ho hf
+    have h2 : Tr ((modifyFrame e fun f =>
+        { f with store := setStore f.store name val, numSet := if f.depth == 0 then f.numSet + 1 else f.numSet }) >>= fun _ =>
+        (pure val : M Obj)) := by tr
+    have h3 := (h2.h (stateAfter (functionChanged w (some o)) st)).miss w
+    omega
+
 /-! ### nested calls -/
 
 theorem writeOut_frames (b : Grol.Wire.Bytes) (st : St) :
@@ -211,9 +274,6 @@ theorem finishCall_result (f : FuncVal) (args : List Obj) (cur before after : Na
     rw [hs1] at h
     exact tail _ _ h
   · exact tail _ _ h
-
-theorem missOf_congr {s s' : St} (h : s'.frames = s.frames) (e : Nat) : missOf s' e = missOf s e := by
-  unfold missOf; rw [h]
 
 theorem cacheGet_run (key : String) (args : List Obj) (st : St) :
     ∃ r, run (cacheGet key args) st = (.ok r, st) := by
@@ -544,5 +604,29 @@ theorem nested_call_during {α : Type} {x : M α} {st s : St} {fuel : Nat} {f : 
       outcome (eval fuel f.body) (bodyState (stateAfter (extendFunctionEnv f args) s) nenv) = .ok v ∧
       Quiet nenv (eval fuel f.body) (bodyState (stateAfter (extendFunctionEnv f args) s) nenv)) :=
   applyFunction_quiet fuel f args s v hok (quiet_during hd hq)
+
+/-- no step of a computation that is quiet on frame `w` is a completed `functionChanged w` of a binding
+that held a function: a miss-free call neither overwrites nor deletes a function-valued binding (every
+overwrite or deletion of an existing binding — `update`, the reference path of `SetNoChecks`, `Delete` —
+reports the old value to `functionChanged`) -/
+theorem no_function_change_during {α : Type} {x : M α} {st s : St} {w : Nat} {o : Obj}
+    (hd : During x st (functionChanged w (some o)) s) (hq : Quiet w x st) (ho : isFuncObj o = true) :
+    outcome (functionChanged w (some o)) s ≠ .ok () := by
+  intro hok
+  have h1 := quiet_during hd hq
+  have h2 := functionChanged_loud w o s ho hok
+  unfold Quiet at h1
+  omega
+
+/-- the same for the store step of an assignment -/
+theorem no_function_write_during {α : Type} {x : M α} {st s : St} {w e : Nat} {name : String} {val : Obj}
+    {fr : Frame} {o : Obj} (hd : During x st (envStoreAt w e name val) s) (hq : Quiet w x st)
+    (hfr : s.frames[e]? = some fr) (hl : lookupStore fr.store name = some o) (ho : isFuncObj o = true) (r : Obj) :
+    outcome (envStoreAt w e name val) s ≠ .ok r := by
+  intro hok
+  have h1 := quiet_during hd hq
+  have h2 := envStoreAt_loud w e name val s fr o r hfr hl ho hok
+  unfold Quiet at h1
+  omega
 
 end Grol.E
